@@ -89,6 +89,17 @@ let handle line =
       (match na_dec_len_only (Some chacha_open_max) (Some chacha_tink_ct_max) (nat_of_int pl) (nat_of_int ivlen) (nat_of_int 16) len true with
        | Some Err -> "err" | Some Panic -> "PANIC" | Some (Ok _) -> failwith "len-only"
        | None -> failwith "huge case whose outcome depends on the content")
+    end else if f.(0) = "ks" then begin
+      (* keyset: one model primitive per ENABLED key, in keyset order *)
+      let prims = List.filter_map (fun e ->
+        match String.split_on_char ',' e with
+        | [sc; ro; va; id; pa; ke; st] ->
+          if st <> "E" then None else
+          let g = [| sc; ro; va; id; pa; ke |] in
+          let (enc, dec, _) = scheme_of g in
+          Some { pr_prefix = output_prefix (variant_of va) (n_of_dec id); pr_legacy = false; pr_enc = enc; pr_dec = dec }
+        | _ -> failwith "ks entry") (String.split_on_char ';' f.(5)) in
+      show (ks_dec prims (unhex f.(7)) (unhex f.(8)))
     end else begin
       let (_, dec, _) = scheme_of f in
       show (dec (unhex f.(7)) (unhex f.(8)))
